@@ -88,6 +88,23 @@ theorem c06_header_once {c : List (Line κ β)} (h : Reach benchOf c) :
     c = [] ∨ headerCount c = 1 :=
   (reach_good benchOf h).hdr
 
+/-- Parallel scheduler.  `persist_data_point` does everything — the lazy open
+with the session block and header, the metadata records, the measurement
+lines, the flush — while holding the persistence object's lock, so whatever
+the worker threads do, the persists on one file happen one after the other:
+the file after the session is `writeOps l` for *some* order `l` of the threads'
+persists.  Every such `l` (in particular every interleaving of the per-thread
+sequences) is a session in the sense of `Reach`; hence the header still occurs
+exactly once and the contents stay reachable for the following sessions.
+That the lock really encloses the open is what the parallel slice of the
+correspondence check exercises with a forced interleaving at `open`. -/
+theorem c06_locked_persists_are_a_session {c : List (Line κ β)} (hr : Reach benchOf c) (T : Tables κ β)
+    (ls : List (Loaded κ)) (hl : load (fun x => x) (fun x => x) c = .ok (T, ls)) (l : List (κ × DP)) :
+    Reach benchOf (writeOps benchOf l (FP.ofTables c T)).content ∧
+    ((writeOps benchOf l (FP.ofTables c T)).content = [] ∨
+      headerCount (writeOps benchOf l (FP.ofTables c T)).content = 1) :=
+  ⟨.session c T ls l hr hl, c06_header_once benchOf (.session c T ls l hr hl)⟩
+
 /-- "each recording session first appends a metadata block": the first
 `persist` of a session appends the four-line block (and the header if the file
 was empty) before anything else; later ones do not repeat it -/
